@@ -36,10 +36,47 @@ type c10Case struct {
 	Serve    bool     `json:"serve_http"`
 	JSR      bool     `json:"jsr311"`
 	NoRoute  bool     `json:"no_route"` // the panicking request fails routing (404): only container filters run
+	// Late: when the recovery settings are applied - "" before the service is added, "after-add",
+	// "after-first-request" (one normal request served first), "toggled" (the opposite setting
+	// before Add, the real one after a first normal request)
+	Late string `json:"recovery_configured,omitempty"`
+}
+
+// recSem: what a recovery configuration means. "off-custom" = DoNotRecover(true) then
+// RecoverHandler(h); "handler-only" = RecoverHandler(h) on the default (recovery off): a handler
+// that is registered but not switched on is never called and the panic propagates.
+func recSem(kind string) string {
+	switch kind {
+	case "off-custom", "handler-only":
+		return "off"
+	}
+	return kind
+}
+
+func (w *c10World) applyRecovery(kind string) {
+	custom := func(p interface{}, hw http.ResponseWriter) {
+		w.recCalls = append(w.recCalls, p)
+		hw.WriteHeader(503)
+		io.WriteString(hw, fmt.Sprintf("custom-recovered:%v", p))
+	}
+	switch kind {
+	case "off":
+		w.c.DoNotRecover(true)
+	case "default":
+		w.c.DoNotRecover(false)
+	case "custom":
+		w.c.DoNotRecover(false)
+		w.c.RecoverHandler(custom)
+	case "off-custom":
+		w.c.DoNotRecover(true)
+		w.c.RecoverHandler(custom)
+	case "handler-only":
+		w.c.RecoverHandler(custom)
+	}
 }
 
 func (c c10Case) String() string {
-	return fmt.Sprintf("shape=%v seq=%q value=%s recovery=%s enc=%q provider=%s serve=%v jsr=%v noroute=%v", c.Shape, c.Seq, c.Val, c.Recovery, c.Enc, c.Provider, c.Serve, c.JSR, c.NoRoute)
+	return fmt.Sprintf("shape=%v seq=%q value=%s recovery=%s(%s) enc=%q provider=%s serve=%v jsr=%v noroute=%v", c.Shape, c.Seq, c.Val, c.Recovery, c.Late, c.Enc, c.Provider, c.Serve, c.JSR, c.NoRoute)
 }
 
 type c10Struct struct{ N int }
@@ -108,13 +145,15 @@ func c10Build(cs c10Case) *c10World {
 	if cs.JSR {
 		c.Router(restful.RouterJSR311{})
 	}
-	c.DoNotRecover(cs.Recovery == "off")
-	if cs.Recovery == "custom" {
-		c.RecoverHandler(func(p interface{}, hw http.ResponseWriter) {
-			w.recCalls = append(w.recCalls, p)
-			hw.WriteHeader(503)
-			io.WriteString(hw, fmt.Sprintf("custom-recovered:%v", p))
-		})
+	switch cs.Late {
+	case "":
+		w.applyRecovery(cs.Recovery)
+	case "toggled":
+		if recSem(cs.Recovery) == "off" {
+			w.applyRecovery("default")
+		} else {
+			w.applyRecovery("off")
+		}
 	}
 	c.EnableContentEncoding(cs.Enc != "")
 	for i := 0; i < cs.Shape[0]; i++ {
@@ -155,6 +194,13 @@ func c10Build(cs c10Case) *c10World {
 	}
 	ws.Route(rb)
 	c.Add(ws)
+	switch cs.Late {
+	case "after-add":
+		w.applyRecovery(cs.Recovery)
+	case "after-first-request", "toggled":
+		w.do(cs, "", "s", "r")
+		w.applyRecovery(cs.Recovery)
+	}
 	return w
 }
 
@@ -310,7 +356,10 @@ func c10Run(cs c10Case) []c10Issue {
 		if r.DecErr != "" {
 			bad("undecodable", "request #%d panicking at %s: the body does not decode: %s", i, pos, r.DecErr)
 		}
-		if cs.Recovery == "off" {
+		if recSem(cs.Recovery) == "off" {
+			if len(w.recCalls) != 0 {
+				bad("recover-handler", "recovery is switched off, yet the registered recover handler was called: %v", w.recCalls)
+			}
 			if !r.EscapedSet || r.Escaped != val {
 				bad("panic-value", "recovery off, panic at %s: the caller saw %v (escaped=%v), expected the original value %v", pos, r.Escaped, r.EscapedSet, val)
 			}
@@ -398,6 +447,27 @@ func c10Cases(tier string) []c10Case {
 									}
 								}
 							}
+						}
+					}
+				}
+			}
+		}
+	}
+	// configuration order: every recovery configuration (incl. a handler registered while recovery
+	// is off) x the moment it is applied
+	for _, noRoute := range []bool{false, true} {
+		for _, pos := range c10Positions([3]int{1, 1, 1}, noRoute) {
+			for _, rec := range []string{"off", "default", "custom", "off-custom", "handler-only"} {
+				for _, late := range []string{"", "after-add", "after-first-request", "toggled"} {
+					if late == "" && (rec == "off" || rec == "default" || rec == "custom") {
+						continue // covered above
+					}
+					if late == "toggled" && rec == "handler-only" {
+						continue // registering a handler does not switch anything: there is nothing to toggle back
+					}
+					for _, enc := range []string{"", "gzip"} {
+						for _, serve := range []bool{false, true} {
+							out = append(out, c10Case{Shape: [3]int{1, 1, 1}, Seq: []string{pos}, Val: "string", Recovery: rec, Enc: enc, Provider: "bounded1", Serve: serve, NoRoute: noRoute, Late: late})
 						}
 					}
 				}
@@ -524,6 +594,6 @@ func checkC10(run *h.Run) {
 	run.Cov["evaluations"] = total
 	run.Cov["distinct_nontrivial"] = total
 	run.Cov["exhaustive"] = total == len(cases)
-	run.Cov["rule"] = "Crash-point enumeration (E1) on the instrumented real package: chain shapes (n_c,n_s,n_r) in {0,1}^3 + (2,0,0) + (0,0,2) (thorough: all of {0,1,2}^3 and (3,1,1)) x every panic position (each filter before passing on / after the downstream returned, handler before output / after partial output / after WriteEntity, the route's condition function; also on a request that fails routing) x panic value {string, error, struct} x recovery {off, default, custom 503 handler} x encoding {off, gzip, deflate} x provider {sync.Pool, bounded(1)} under a ledger x entry point x router (quick: product thinned on value x router x provider, every single dimension complete; thorough: full product). E2: every sequence of 2 (thorough: up to 3) requests over {normal, panic at each position} followed by the probe set. Each case runs under the controlled scheduler as a single thread so that a lock left held is a deadlock verdict; afterwards a probe set (normal request, Add + request, Remove + request, normal again) must equal a fresh container's answers. Every case is non-trivial."
+	run.Cov["rule"] = "Crash-point enumeration (E1) on the instrumented real package: chain shapes (n_c,n_s,n_r) in {0,1}^3 + (2,0,0) + (0,0,2) (thorough: all of {0,1,2}^3 and (3,1,1)) x every panic position (each filter before passing on / after the downstream returned, handler before output / after partial output / after WriteEntity, the route's condition function; also on a request that fails routing) x panic value {string, error, struct} x recovery {off, default, custom 503 handler} x encoding {off, gzip, deflate} x provider {sync.Pool, bounded(1)} under a ledger x entry point x router (quick: product thinned on value x router x provider, every single dimension complete; thorough: full product). Configuration order: shape (1,1,1) x every position x recovery {off, default, custom, DoNotRecover(true)+RecoverHandler, RecoverHandler alone on the default} x moment the setting is applied {before Add, after Add, after a first request, the opposite setting first and toggled after a first request} x encoding {off, gzip} x entry point. E2: every sequence of 2 (thorough: up to 3) requests over {normal, panic at each position} followed by the probe set. Each case runs under the controlled scheduler as a single thread so that a lock left held is a deadlock verdict; afterwards a probe set (normal request, Add + request, Remove + request, normal again) must equal a fresh container's answers. Every case is non-trivial."
 	run.Assume = []string{"panics of plain http.Handlers registered through Handle are outside the statement", "default recover handler: only the first line of its output (the panic value) is compared, not the stack trace"}
 }
